@@ -131,6 +131,8 @@ def gen_field_cases(rng, fd, level):
         seq.append(('tobits', rng.choice(elems), 0))
     seq.append(('tobits', q - 1, 0))
     mixed = [(rng.choice(elems), rng.choice(elems)) for _ in range((2, 4, 12)[level])]
+    if fd[0] == 'P' and q < 2**32:   # public ints outside range(q): reduced mod q by the constructor (also for lifted types)
+        mixed = [(a, b + q * rng.choice([-2, -1, 0, 1, 3])) for a, b in mixed]
     return {'pairs': pairs, 'neq': neq, 'pows': pows, 'seq': seq, 'mixed': mixed}
 
 
@@ -420,7 +422,7 @@ def check_field(ctx, cfg, seed, fd, cs, info, res, fi, L):
     k = 0
     mx = bulk['mixed']
     for a, b in cs['mixed']:
-        ea, eb = el(a), el(b)
+        ea, eb = el(a), el(b % q if fd[0] == 'P' else b)
         exps = [OF.add(ea, eb), OF.add(eb, ea), OF.sub(ea, eb), OF.sub(eb, ea), OF.mul(ea, eb), OF.mul(eb, ea), None]
         names = ['a+int', 'int+a', 'a-elt', 'int-a', 'a*elt', 'int*a', 'a==int']
         pubnz = (b % user_char(fd) != 0) if (fd[0] == 'P') else (b != 0)
@@ -431,7 +433,7 @@ def check_field(ctx, cfg, seed, fd, cs, info, res, fi, L):
                 exps.append(OF.div(eb, ea))
                 names.append('elt/a')
         for nm, ex in zip(names, exps):
-            exp = zero1(a == b) if ex is None else OF.code(ex)
+            exp = zero1(ea == eb) if ex is None else OF.code(ex)
             ctx.case((cfg, fd, nm, a, b))
             if mx[k] != exp:
                 viol(nm, (a, b), exp, mx[k])
